@@ -13,6 +13,7 @@ import (
 
 	"github.com/cnotch/ipchub/media"
 	"github.com/cnotch/ipchub/provider/auth"
+	"pgregory.net/rapid"
 	"verif/harness/lib/evid"
 	"verif/harness/lib/refmodel"
 	"verif/harness/lib/rtspc"
@@ -90,7 +91,7 @@ type rawResult struct {
 // rawHTTP writes one HTTP/1.1 request with the target exactly as given and
 // reads the answer. streaming: the answer is an endless body (HTTP-FLV); the
 // shard's streams are fed until marked media arrived.
-func (sh *shard) rawHTTP(method, target string, streaming bool) rawResult {
+func (sh *shard) rawHTTP(method, target string, streaming bool, headers ...string) rawResult {
 	conn, err := net.DialTimeout("tcp", sh.s.Addr(), ioBound)
 	if err != nil {
 		return rawResult{Note: "dial: " + err.Error()}
@@ -100,6 +101,9 @@ func (sh *shard) rawHTTP(method, target string, streaming bool) rawResult {
 	req := method + " " + target + " HTTP/1.1\r\nHost: " + sh.s.Addr() + "\r\nConnection: close\r\n"
 	if method == "POST" || method == "PUT" {
 		req += "Content-Length: 0\r\n"
+	}
+	for _, hl := range headers {
+		req += hl + "\r\n"
 	}
 	if _, err := io.WriteString(conn, req+"\r\n"); err != nil {
 		return rawResult{Note: "write: " + err.Error()}
@@ -368,7 +372,7 @@ func TestWitnessAuthorizedPathIsCanonicalPath(t *testing.T) {
 		if !plainOK[entry] {
 			t.Fatalf("machinery: the administrator's plain request on %s delivered nothing", entry)
 		}
-		t.Logf("%-9s served %d of %d non-plain spellings (x methods) to the administrator", entry, servedOdd[entry], len(spells)-1)
+		t.Logf("%-9s the administrator was served on %d requests with a non-plain spelling (%d spellings x methods)", entry, servedOdd[entry], len(spells)-1)
 	}
 
 	// ---- publishing over RTSP: the push right is decided on the path the stream is
@@ -416,6 +420,8 @@ func TestWitnessAuthorizedPathIsCanonicalPath(t *testing.T) {
 		for _, tg := range apiSpells {
 			if method == "DELETE" {
 				tg += "/" + scratch
+			} else {
+				tg += "?page_size=100000" // the list is paged and other shards have accounts too
 			}
 			rr := sh.rawHTTP(method, withToken(tg, root.cred.Token, true), false)
 			evid.Eval(1)
@@ -456,4 +462,184 @@ func TestWitnessAuthorizedPathIsCanonicalPath(t *testing.T) {
 		return
 	}
 	t.Logf("authorized path == canonical path served, on every entry point, method and spelling")
+}
+
+// ---------------------------------------------------------------- histories
+
+// detourDirs are the directories (relative to the shard root) a generated
+// spelling may walk through before it climbs back with ".." segments.
+var detourDirs = []string{"/a", "/a/x", "/cam", "/cam/1", "/b", "/zz"}
+
+// pickSpelledTarget draws user, live path and detour directory of a spelled
+// request. Most of the time it aims at the hole dot segments invite: a user
+// whose pull right covers everything below the detour directory but not the path.
+func (h *hist) pickSpelledTarget(u int) (int, string, string, string) {
+	type cand struct {
+		u    int
+		p, d string
+	}
+	var cands []cand
+	for x := 0; x < nUsers; x++ {
+		for _, d := range detourDirs {
+			if !h.m.allow(x, "pull", h.sh.ns+d+"/any/thing") {
+				continue
+			}
+			for _, p := range h.sh.live {
+				if !h.m.allow(x, "pull", p) {
+					cands = append(cands, cand{x, p, h.sh.ns + d})
+				}
+			}
+		}
+	}
+	if len(cands) > 0 && rapid.IntRange(0, 9).Draw(h.t, "aimAtDetourRight") < 7 {
+		c := rapid.SampledFrom(cands).Draw(h.t, "detourRight")
+		return c.u, c.p, c.d, "right-covers-detour-only"
+	}
+	return u, h.pickPath(u, "pull", h.sh.live, "path"), h.sh.ns + rapid.SampledFrom(detourDirs).Draw(h.t, "detour"), "other"
+}
+
+// drawSpelling writes path as "{detour}/../..{path}" with optional "." and empty
+// segments, each dot segment and separator literal or percent-encoded, segments
+// possibly in upper case, possibly a trailing blank. encodedOnly: nothing a
+// path-cleaning front end would redirect (no literal dot segment, no literal "//").
+func (h *hist) drawSpelling(path, detour string, encodedOnly bool) string {
+	split := func(p string) []string { return strings.Split(strings.Trim(p, "/"), "/") }
+	var segs []string
+	if rapid.IntRange(0, 4).Draw(h.t, "useDetour") > 0 {
+		ds := split(detour)
+		segs = append(segs, ds...)
+		for range ds {
+			segs = append(segs, "..")
+		}
+	}
+	segs = append(segs, split(path)...)
+	for n := rapid.IntRange(0, 2).Draw(h.t, "extraSegments"); n > 0; n-- {
+		at := rapid.IntRange(1, len(segs)-1).Draw(h.t, "extraAt")
+		extra := rapid.SampledFrom([]string{".", ""}).Draw(h.t, "extraSegment")
+		segs = append(segs[:at], append([]string{extra}, segs[at:]...)...)
+	}
+	dots := []string{"%2e", "%2E", "."}
+	var b strings.Builder
+	for i, s := range segs {
+		sep := "/"
+		if i > 0 && (s == "" && encodedOnly || rapid.IntRange(0, 5).Draw(h.t, "encodeSlash") == 0) {
+			sep = rapid.SampledFrom([]string{"%2F", "%2f"}).Draw(h.t, "slash")
+		}
+		b.WriteString(sep)
+		switch s {
+		case ".", "..":
+			literal := true
+			for j := range s {
+				d := rapid.SampledFrom(dots).Draw(h.t, "dot")
+				if encodedOnly && literal && j == len(s)-1 && d == "." {
+					d = "%2e"
+				}
+				literal = literal && d == "."
+				b.WriteString(d)
+			}
+		default:
+			if rapid.IntRange(0, 3).Draw(h.t, "upper") == 0 {
+				s = strings.ToUpper(s)
+			}
+			b.WriteString(s)
+		}
+	}
+	if rapid.IntRange(0, 5).Draw(h.t, "trailingBlank") == 0 {
+		b.WriteString("%20")
+	}
+	return b.String()
+}
+
+// cleanedByMux predicts net/http ServeMux's answer to a non-CONNECT request: the
+// escaped path is cleaned and, when that changes it, the answer is a redirect.
+// Only used to choose the method of a generated request, never to judge one.
+func cleanedByMux(escaped string) bool {
+	for _, bad := range []string{"//", "/./", "/../"} {
+		if strings.Contains(escaped, bad) {
+			return true
+		}
+	}
+	return strings.HasSuffix(escaped, "/.") || strings.HasSuffix(escaped, "/..")
+}
+
+// attemptSpelled: one HTTP-side play attempt whose URL spells the stream path in
+// a non-canonical way. The reference decision is the pull right on the stream
+// the spelling means; a holder who is not served is a violation only when the
+// administrator is served by the very same request (a server may turn a spelling
+// down for everybody).
+func (h *hist) attemptSpelled() {
+	u := h.pickUser()
+	kind := rapid.SampledFrom(httpCreds).Draw(h.t, "cred")
+	entry := rapid.SampledFrom([]string{"http-flv", "hls-playlist", "hls-segment", "ws-flv", "ws-rtsp", "wsp"}).Draw(h.t, "entry")
+	isWS := strings.HasPrefix(entry, "ws")
+	u, path, detour, class := h.pickSpelledTarget(u)
+	esc := h.drawSpelling(path, detour, isWS || rapid.IntRange(0, 2).Draw(h.t, "encodedOnly") > 0)
+	if got := refCanonOf(esc); got != path {
+		h.machinery("generated spelling %q means %q, not %q", esc, got, path)
+	}
+	method := "GET"
+	if !isWS {
+		method = rapid.SampledFrom([]string{"GET", "GET", "CONNECT", "POST", "OPTIONS"}).Draw(h.t, "method")
+		if cleanedByMux("/streams" + esc) {
+			method = "CONNECT"
+		}
+	}
+	cred, kind, valid := h.httpCredFor(kind, u)
+	allow := valid && h.m.allow(u, "pull", path)
+	a := &attempt{Entry: entry, Shape: "spelled", Cred: kind, User: u, User2: u, Path: path, Path2: method + " " + esc, Expect: expectWord(allow)}
+	h.ntFlip(a, u, "pull", path)
+	evid.Class("spelled:" + class)
+	evid.Class("spelled-method:" + method)
+	run := func(c httpCred) ([]string, string) {
+		switch entry {
+		case "ws-flv":
+			o := h.sh.wsURLPlay("ws-plain", esc+".flv", path, c)
+			return o.Markers, fmt.Sprintf("%d %s", o.Status, o.Note)
+		case "ws-rtsp", "wsp":
+			o := h.sh.wsURLPlay(entry, esc, path, c)
+			return o.Markers, fmt.Sprintf("%d %v %s", o.Status, o.Statuses, o.Note)
+		}
+		suffix := map[string]string{"http-flv": ".flv", "hls-playlist": ".m3u8", "hls-segment": ".ts"}[entry]
+		var hdr []string
+		if c.Spoof != "" {
+			hdr = append(hdr, "user_name_in_token: "+c.Spoof)
+		}
+		var r rawResult
+		for try := 0; ; try++ {
+			tg := "/streams" + esc + suffix
+			if suffix == ".ts" {
+				uris := h.sh.segmentURIs(path)
+				if len(uris) == 0 {
+					h.machinery("no HLS segments on %s", path)
+				}
+				last := uris[len(uris)-1]
+				if i := strings.IndexByte(last, '?'); i >= 0 {
+					last = last[:i]
+				}
+				tg = "/streams" + esc + last[strings.LastIndex(last, "/"):]
+			}
+			r = h.sh.rawHTTP(method, withToken(tg, c.Token, c.HasToken), suffix == ".flv", hdr...)
+			if !(suffix == ".ts" && r.Status == 404 && try < 3) { // the window moved meanwhile
+				break
+			}
+		}
+		return streamsIn(suffix, method, r, path), fmt.Sprintf("%d %s", r.Status, r.Note)
+	}
+	got, note := run(cred)
+	h.record(a)
+	h.note(map[string]any{"op": "access", "attempt": a, "got": got, "observed": note})
+	for _, s := range got {
+		if !valid || !h.m.allow(u, "pull", s) {
+			h.fail("over-grant-media", "%s [spelled]: %s %s delivered %s to a caller (%s, credential %s) whose saved pull right %q does not cover it (%s)", entry, method, esc, s, h.names[u], kind, h.m.users[u].Pull, note)
+		}
+	}
+	if allow && !hasString(got, path) {
+		rgot, rnote := run(h.root)
+		if hasString(rgot, path) {
+			h.fail("over-refusal-media", "%s [spelled]: %s %s serves %s to the administrator; %s holds the pull right %q on it and is refused: %s (administrator: %s)", entry, method, esc, path, h.names[u], h.m.users[u].Pull, note, rnote)
+		}
+		evid.Class("spelled:turned-down-for-everybody")
+	} else if allow {
+		evid.Class("spelled:served-to-holder")
+	}
 }
